@@ -5,7 +5,7 @@ package lexer
 
 // ---- C20: tokenisation and token dispensing never crash ----
 //@ extern func bufio.NewReader(rd io.Reader) *bufio.Reader
-//@   ensures result != nil
+//@   ensures result != nil && fresh(result)
 //@ func (*lexer).load
 //@   prop C20
 //@   nopanic
